@@ -21,6 +21,7 @@ func FuzzVerifC15DaemonConfig(f *testing.F) {
 		f.Add([]byte(base), []byte(s))
 	}
 	f.Fuzz(func(t *testing.T, base, top []byte) {
+		defer g.FuzzGuard(t, "FuzzVerifC15DaemonConfig", base, top)()
 		b := g.Bytes(base)
 		s := vfC15CfgScenario{Kind: "fuzz", Via: "merge", Base: &b}
 		if len(top) > 0 {
